@@ -32,6 +32,7 @@ from lib import common, forkpool, lianrun, edits, c12_programs as P
 PROP = "C12"
 TABLES = ("call-edges", "bindings", "taint-flow-lines")
 DECL_OPS_SKIP = ("variable_decl", "parameter_decl")
+LINE_MOVING = ("blank-lines", "noop-stmt", "reorder-defs", "move-to-file")
 RENAMES = ("rename-local", "rename-param", "rename-function", "rename-class", "rename-method")
 
 
@@ -41,11 +42,18 @@ RENAMES = ("rename-local", "rename-param", "rename-function", "rename-class", "r
 def analyse(job):
     """job: {id, lang, files, settings, run: {kind, main, entry, argvecs} | None} -> plain result dict"""
     import resource
-    import time
+    import shutil
     if job.get("cpu"):
         resource.setrlimit(resource.RLIMIT_CPU, (int(job["cpu"]), int(job["cpu"]) + 2))    # SIGXCPU ends a runaway analysis
-    sc = common.scratch()
-    root = os.path.join(sc, "c12_" + job["id"])
+    root = os.path.join(common.scratch(), "c12_" + job["id"])
+    try:
+        return _analyse(job, root)
+    finally:
+        shutil.rmtree(root, ignore_errors=True)      # the workspace is read inside this child; nothing is needed afterwards
+
+
+def _analyse(job, root):
+    import time
     src = os.path.join(root, "in")
     os.makedirs(src, exist_ok=True)
     for rel, text in job["files"].items():
@@ -88,8 +96,11 @@ def analyse(job):
     res["backmap"] = {}
     for rel, text in job["files"].items():
         outs = pre["by_text"].get(text)
-        if outs is not None and outs != text and _lines_moved(text, outs):
-            res["backmap"][rel] = line_backmap(text, outs)
+        if outs is not None and outs != text:
+            back = line_backmap(text, outs)
+            pl = outs.split("\n")
+            if any(pl[j].strip() and back[j] != j + 1 for j in range(len(back))):     # some statement line stands elsewhere
+                res["backmap"][rel] = back
     return res
 
 
@@ -113,14 +124,6 @@ def install_preprocess_recorder():
         return r
     em.EventManager.notify = wrapped
     return rec
-
-
-def _lines_moved(a, b):
-    """True when some non-blank line of a stands on another line number in b."""
-    la, lb = a.split("\n"), b.split("\n")
-    if len(la) != len(lb):
-        return True
-    return any((x.strip() == "") != (y.strip() == "") for x, y in zip(la, lb))
 
 
 def line_backmap(orig, pre):
@@ -433,8 +436,12 @@ def classify(table, only_a, only_b):
     return out
 
 
-def compare_pair(lang, base_files, edited_files, res_a, res_b, mp):
-    """-> (diffs [(table, what, witness, known_mechanism_suffix)], sizes of the base tables)"""
+def compare_pair(lang, base_files, edited_files, res_a, res_b, mp, line_preserving=False):
+    """-> (diffs [(table, what, witness, known_mechanism_suffix)], sizes of the base tables).
+    line_preserving: the edit sequence consists of renames only — no line moves, so the results must agree in whatever
+    line coordinates lian reports; the harness' name map is keyed by SOURCE lines, therefore such a pair is compared
+    in source coordinates (lines taken back through the preprocessing shift the child observed) when the raw comparison
+    differs. The absolute line error itself is C10's subject, not a non-invariance."""
     def diff(fa, fb):
         ta = normalise(res_a, fa)
         tb = restrict_edited(normalise(res_b, fb), mp)
@@ -466,6 +473,8 @@ def compare_pair(lang, base_files, edited_files, res_a, res_b, mp):
         if not (r[0] or r[1]):
             continue
         if comp is not None and not (comp[t][0] or comp[t][1]):
+            if line_preserving:
+                continue
             wit = {"expected": sorted(r[0], key=str)[:3], "got": sorted(r[1], key=str)[:3]} if raw is not None else {}
             out.append((t, "shifted-by-preprocessing", wit, suffix))
             continue
@@ -476,7 +485,7 @@ def compare_pair(lang, base_files, edited_files, res_a, res_b, mp):
             use = comp[t]
         for what, wit in classify(t, use[0], use[1]):
             out.append((t, what, wit, ""))
-        if partly:
+        if partly and not line_preserving:
             out.append((t, "shifted-by-preprocessing", {"note": "part of the difference vanishes when lines are taken back through the import-list shift"}, suffix))
     return out, sizes
 
@@ -698,17 +707,25 @@ def judge(chk, prog, steps, edited_files, res_a, res_b, reducible, case_extra=No
             "steps": pack_steps(steps), "runnable": bool(prog.get("runnable")), "main": prog.get("main"), "entry": prog.get("entry"),
             "argvecs": [list(a) for a in prog.get("argvecs", [])]}
     if res_b.get("died") == "no-frontend-artefacts":
-        sig = f"{label_of(steps)}:all-results:empty-after-edit"
+        lab = next((k for k in LINE_MOVING if any(s.kind == k for s in steps)), label_of(steps))
+        sig = f"{lab}:all-results:empty-after-edit"
         fails.append((sig, f"{prog['name']}: the base project has results, the edited one leaves no GIR / no result at all (and no error)", case))
         return fails, None
     if res_b.get("died"):
         sig = f"{label_of(steps)}:analysis:died-after-edit:{res_b['died']}"
         fails.append((sig, f"{prog['name']}: the base project is analysed, the edited one dies: {res_b['died']} {res_b.get('died_msg', '')}", case))
         return fails, None
-    diffs, sizes = compare_pair(prog["lang"], prog["files"], edited_files, res_a, res_b, mp)
+    diffs, sizes = compare_pair(prog["lang"], prog["files"], edited_files, res_a, res_b, mp,
+                                line_preserving=all(s.kind in RENAMES for s in steps))
     seen = set()
     for table, what, wit, suffix in diffs:
-        sig = f"{label_of(steps, suffix)}:{table}:{what}"
+        if what == "shifted-by-preprocessing":
+            # the mechanism does not depend on WHICH line-moving edit exposes it: the label is the first line-moving
+            # edit kind of the sequence in a fixed order
+            lab = next((k for k in LINE_MOVING if any(s.kind == k for s in steps)), label_of(steps)) + suffix
+        else:
+            lab = label_of(steps, suffix)
+        sig = f"{lab}:{table}:{what}"
         if sig in seen:
             continue
         seen.add(sig)
@@ -828,6 +845,9 @@ def main():
             chk.count("dropped: base program does not run cleanly under its runtime", 1)
             continue
         good_base[bi] = x
+        chk.count("source texts seen by the recording wrapper on lian's text preprocessing (ORIGINAL_SOURCE_CODE_READY)", x.get("preprocess_events") or 0)
+        if x.get("backmap"):
+            chk.count("base programs in which lian's preprocessing moved lines", 1)
     chk.count("base programs analysed twice with equal results", len(good_base))
 
     # pairs
@@ -855,6 +875,7 @@ def main():
             cell = f"{prog['lang']}/{s.kind}"
             per_cell[cell] = per_cell.get(cell, 0) + 1
         chk.count(f"pairs compared: {prog['lang']}", 1)
+        chk.count(f"pairs compared: origin {prog['origin']}", 1)
         chk.count(f"pairs compared with {len(p['steps'])} edit(s)", 1)
         if prog.get("runnable"):
             chk.count("pairs whose two programs were executed and behaved identically", 1)
@@ -933,6 +954,9 @@ def main():
     chk.require("pairs with non-empty base taint-flow-lines", 30 * q)
     chk.require("pairs whose two programs were executed and behaved identically", 50 * q)
     chk.require("pairs whose base has an `import a, b` statement", 6 * q)
+    chk.require("source texts seen by the recording wrapper on lian's text preprocessing (ORIGINAL_SOURCE_CODE_READY)", 30 * q)
+    chk.require("pairs compared: origin corpus", 6 * q)
+    chk.require("pairs compared: origin template", 12 if not thorough else 60)
     chk.assumptions += [
         f"base programs whose own analysis needs more than {screen} CPU seconds are not used as workload (counted; analysis cost is C13's subject); "
         f"an edited version that exceeds {screen * 5} CPU s or the wall-clock watchdog makes the run inconclusive",
